@@ -31,7 +31,7 @@ def _lines(pyfile):
 def _run_one(pyfile, name, line, timeout):
     exe = os.path.join(os.path.dirname(sys.executable), "crosshair")
     env = dict(os.environ)
-    env["PYTHONPATH"] = f"{ROOT}:/repo:" + env.get("PYTHONPATH", "")
+    env["PYTHONPATH"] = f"{ROOT}:{os.environ.get('VERIF_REPO', '/repo')}:" + env.get("PYTHONPATH", "")
     cmd = [exe, "check", "--report_all", "--per_condition_timeout", str(timeout),
            "--per_path_timeout", str(max(2.0, timeout / 4)), f"{pyfile}:{line}"]
     t0 = time.time()
